@@ -249,7 +249,28 @@ def originals():
             "py.seed": pyrandom.seed, "np.standard_normal": np.random.standard_normal, "py.gauss": pyrandom.gauss}
 
 
-def one_run(kind, seed, steps, gseed=None, pseed=None, orig=None, wrap_rng=False, size=1, calc="auto"):
+def preuse_components(kind, mc, seed, calc, size):
+    """the move / operation / criteria OBJECTS of `mc` have already served another simulation (own seed, own atoms, own
+    generator) in this process — a move table defined once and reused over a loop of seeds or replicas. Nothing of that
+    earlier simulation may reach the next one: "all randomness … is drawn from the simulation's own generator"."""
+    if kind not in ("can", "ham", "isob", "isot"):      # exchange moves carry per-simulation labels; force bias has no moves
+        return False
+    other = build(kind, (seed * 31 + 977) % (2**63), calc=calc, size=size)
+    for name, st in mc.moves.items():
+        other.moves[name].move = st.move
+        other.moves[name].criteria = st.criteria
+    for st in other.irun(3):
+        if hasattr(st, "__next__"):  # MonteCarlo.step is a generator of move names
+            for _ in st:
+                pass
+    try:
+        other.close()
+    except Exception:  # noqa: BLE001
+        pass
+    return True
+
+
+def one_run(kind, seed, steps, gseed=None, pseed=None, orig=None, wrap_rng=False, size=1, calc="auto", preuse=False):
     """build and run one simulation; per-step digests of everything observable. `gseed` seeds the global generators
     before construction, `pseed` drives the perturber that is attached as an observer and also called between moves."""
     E = env()
@@ -260,6 +281,8 @@ def one_run(kind, seed, steps, gseed=None, pseed=None, orig=None, wrap_rng=False
         orig["py.seed"](gseed[1])
     log = io.StringIO()
     mc = build(kind, seed, calc=calc, logfile=log, size=size)
+    if preuse:
+        preuse_components(kind, mc, seed, calc, size)
     reclog = None
     if wrap_rng:
         rec = RecordingRNG(mc._rng)
@@ -588,7 +611,7 @@ class DoubleRun(common.Suite):
                 if tier == "quick" and s == 0:
                     other = None  # the empirical different-seeds comparison once per kind is enough in the quick tier
                 calc = "auto" if tier == "quick" or kind in ("gc", "gcmol", "afb") or k % 2 else "pair"
-                yield {"kind": kind, "seed": s, "steps": steps, "other_seed": other, "calc": calc,
+                yield {"kind": kind, "seed": s, "steps": steps, "other_seed": other, "calc": calc, "preuse": k % 2 == 1 or s == 0,
                        "gA": [rng.randrange(2**32), rng.randrange(2**32)], "gB": [rng.randrange(2**32), rng.randrange(2**32)],
                        "pA": rng.randrange(2**32), "pB": rng.randrange(2**32)}
 
@@ -598,7 +621,8 @@ class DoubleRun(common.Suite):
             calc = case.get("calc", "auto")
             a = one_run(case["kind"], case["seed"], case["steps"], case["gA"], case["pA"], orig, calc=calc)
             with Poison() as poison:
-                b = one_run(case["kind"], case["seed"], case["steps"], case["gB"], case["pB"], orig, calc=calc)
+                b = one_run(case["kind"], case["seed"], case["steps"], case["gB"], case["pB"], orig, calc=calc,
+                            preuse=bool(case.get("preuse")))
             viol, third = poison.classify()
             c = None
             if case.get("other_seed") is not None:
@@ -646,7 +670,7 @@ class DoubleRun(common.Suite):
         if not obs.get("consumed"):
             return None
         s = case["seed"]
-        return f"{case['kind']}:{'seed0' if s == 0 else 'big' if s >= 2**63 else 'seed'}:{obs['events']}"
+        return f"{case['kind']}:{'seed0' if s == 0 else 'big' if s >= 2**63 else 'seed'}:{obs['events']}:{'reused-components' if case.get('preuse') else 'fresh'}"
 
 
 def _initial_state(seed):
